@@ -48,7 +48,13 @@ fn reference(limit: Option<&str>) -> Want {
 }
 
 fn check_limit(ctx: &Ctx, ka: &mut KeepAlive, limit: Option<&str>, token: Option<&str>, samples: &Samples) {
-    let mut q = String::from("/limit?");
+    check_limit_at(ctx, ka, "/limit", limit, token, samples);
+    // the same through scan parameters that refuse unknown fields
+    check_limit_at(ctx, ka, "/limit_strict", limit, token, samples);
+}
+
+fn check_limit_at(ctx: &Ctx, ka: &mut KeepAlive, endpoint: &str, limit: Option<&str>, token: Option<&str>, samples: &Samples) {
+    let mut q = format!("{endpoint}?");
     match token {
         Some(t) => q.push_str(&format!("page_token={}", pct(t.as_bytes()))),
         None => q.push_str("size=3"),
@@ -58,7 +64,7 @@ fn check_limit(ctx: &Ctx, ka: &mut KeepAlive, limit: Option<&str>, token: Option
     }
     let r = ka.roundtrip(&get(&q, ""), false, T);
     let want = reference(limit);
-    let case = json!({"kind":"live_request","seam":"page_limit","limit": limit, "with_token": token.is_some()});
+    let case = json!({"kind":"live_request","seam":"page_limit","endpoint": endpoint, "limit": limit, "with_token": token.is_some()});
     let ReadOutcome::Resp(resp) = &r else {
         ctx.report(Violation { sig: json!({"kind":"limit_no_response"}), case, expected: json!(format!("{want:?}")), observed: json!(format!("{r:?}")) });
         return;
@@ -75,7 +81,7 @@ fn check_limit(ctx: &Ctx, ka: &mut KeepAlive, limit: Option<&str>, token: Option
             _ => "other",
         };
         ctx.report(Violation {
-            sig: json!({"kind":"page_limit","class": class, "want": match want { Want::Limit(_) => "limit", Want::Refuse => "refuse", Want::Unclassified => "no_5xx" }, "status": resp.status}),
+            sig: json!({"kind":"page_limit","endpoint": endpoint, "class": class, "want": match want { Want::Limit(_) => "limit", Want::Refuse => "refuse", Want::Unclassified => "no_5xx" }, "status": resp.status}),
             case,
             expected: json!(format!("{want:?}")),
             observed: resp.to_json(),
@@ -110,15 +116,15 @@ pub fn run(ctx: &Ctx, samples: &Samples) -> Value {
     }
     check_limit(ctx, &mut ka, None, None, samples);
     check_limit(ctx, &mut ka, None, Some(&token), samples);
-    requests += 2;
+    requests += 4;
     for l in &limits {
         check_limit(ctx, &mut ka, Some(l), None, samples);
-        requests += 1;
+        requests += 2;
         distinct += 1;
         // the limit applies the same way when a token is present
         if l.len() < 6 || !l.bytes().all(|b| b.is_ascii_digit()) {
             check_limit(ctx, &mut ka, Some(l), Some(&token), samples);
-            requests += 1;
+            requests += 2;
         }
     }
     // token refusals as the client sees them: 4xx, never 5xx
